@@ -39,7 +39,7 @@ import (
 func TestVerif_C22(t *testing.T) {
 	rec := kit.Open("C22")
 	defer rec.Done()
-	nCorp := rec.N(30, 500) // building a world costs ~0.7 s (shard builders), a query ~50 ms
+	nCorp := rec.N(30, 400) // building a world costs ~0.7 s (shard builders), a query ~100 ms
 	nQ := rec.N(9, 16)
 	for ci := 0; ci < nCorp; ci++ {
 		w, err := newWorld(rec, 22_000_000+uint64(ci), worldOpt{singles: ci%5 == 4, configure: func(g *kit.Gen) {
